@@ -244,7 +244,7 @@ class C09(Check):
                     continue
                 if len(sec) < 3:
                     continue
-                classes = {c for c in sec[2].split(' ') if c not in ('.', ';')}
+                classes = {c for c in sec[2].split(' ') if c not in ('.', ';', '')}
                 if livecnt != len(classes):
                     fails.append((i, k, 'live payload blocks (%d) differ from the number of distinct payloads the live handles refer to (%d): `%s`'
                                   % (livecnt, len(classes), line)))
